@@ -417,4 +417,273 @@ def resize (dflt : α) (_ : Cyclic α) (size : Nat) : Cyclic α :=
 
 end Cyclic
 
+/-! ## igris/datastruct/bytering.h — the pointer version of the byte ring
+
+`struct bytering_head { unsigned char *start, *head, *tail, *end; }`.  Pointers
+are addresses (`Nat`); the memory block handed to `bytering_init` is a
+`List Byte` living at address `start`, every dereference is bounds-tested
+against it (`none` = access outside the block).  Queue convention of this file:
+`push` stores at `tail`, `pop` loads from `head`.  The functions are the code
+after the `fix:` commits; `…Orig` are the pre-repair bodies (witnesses only). -/
+
+structure ByteRing where
+  start : Nat
+  head : Nat
+  tail : Nat
+  end_ : Nat
+  deriving DecidableEq, Repr
+
+/-- `r->start = r->head = r->tail = buf; r->end = buf + size;` -/
+def brInit (buf size : Nat) : ByteRing := { start := buf, head := buf, tail := buf, end_ := buf + size }
+
+/-- repaired `__bytering_fixup(r, &p)`: `if (*fixed >= r->end) *fixed = r->start;` -/
+def brFixup (b : ByteRing) (p : Nat) : Nat := if p ≥ b.end_ then b.start else p
+
+/-- pre-repair: `if (r->end >= *fixed) *fixed = r->start;` (true for every
+pointer inside the block: the pointer is reset on every step) -/
+def brFixupOrig (b : ByteRing) (p : Nat) : Nat := if b.end_ ≥ p then b.start else p
+
+/-- `return r->head == r->tail;` -/
+def brEmpty (b : ByteRing) : Bool := b.head == b.tail
+
+/-- repaired `bytering_full`: `return r->tail == (r->head == r->start ? r->end : r->head) - 1;` -/
+def brFull (b : ByteRing) : Bool := b.tail == (if b.head == b.start then b.end_ else b.head) - 1
+
+/-- pre-repair: `return r->head == (r->tail == r->start ? r->end : r->tail) - 1;`
+(the formula of ring.h, where `head` is the write side — here `tail` is) -/
+def brFullOrig (b : ByteRing) : Bool := b.head == (if b.tail == b.start then b.end_ else b.tail) - 1
+
+/-- `*p` (load) for a pointer into the block at `start` -/
+def brLoad (b : ByteRing) (mem : List Byte) (p : Nat) : Option Byte :=
+  if p < b.start then none else mem[p - b.start]?
+
+/-- `*p = c` (store) -/
+def brStore (b : ByteRing) (mem : List Byte) (p : Nat) (c : Byte) : Option (List Byte) :=
+  if p < b.start then none else poke mem (p - b.start) c
+
+/-- `unsigned char ret = *r->head++; __bytering_fixup(r, &r->head); return ret;` -/
+def brPopNocheckWith (fix : ByteRing → Nat → Nat) (b : ByteRing) (mem : List Byte) :
+    Option (ByteRing × Int) :=
+  match brLoad b mem b.head with
+  | none => none
+  | some c => some ({ b with head := fix b (b.head + 1) }, (c.toNat : Int))
+
+/-- `*r->tail++ = c; __bytering_fixup(r, &r->tail); return 0;` -/
+def brPushNocheckWith (fix : ByteRing → Nat → Nat) (b : ByteRing) (mem : List Byte) (c : Byte) :
+    Option (ByteRing × List Byte) :=
+  match brStore b mem b.tail c with
+  | none => none
+  | some mem' => some ({ b with tail := fix b (b.tail + 1) }, mem')
+
+def brPopNocheck := brPopNocheckWith brFixup
+def brPushNocheck := brPushNocheckWith brFixup
+
+/-- `if (bytering_empty(r)) return -1; return bytering_pop_nocheck(r);` -/
+def brPopWith (fix : ByteRing → Nat → Nat) (b : ByteRing) (mem : List Byte) : Option (ByteRing × Int) :=
+  if brEmpty b then some (b, -1) else brPopNocheckWith fix b mem
+
+/-- `if (bytering_full(r)) return -1; bytering_push_nocheck(r, c); return 0;` -/
+def brPushWith (full : ByteRing → Bool) (fix : ByteRing → Nat → Nat) (b : ByteRing) (mem : List Byte)
+    (c : Byte) : Option (ByteRing × List Byte × Int) :=
+  if full b then some (b, mem, -1)
+  else (brPushNocheckWith fix b mem c).map fun (b', m') => (b', m', 0)
+
+def brPop := brPopWith brFixup
+def brPush := brPushWith brFull brFixup
+
+/-- operation language of bytering.h (what the driver executes, what the
+history theorems quantify over) -/
+inductive BOp where
+  | push (c : Byte)
+  | pop
+  deriving Repr
+
+def stepB (b : ByteRing) (mem : List Byte) : BOp → Option (ByteRing × List Byte × Int)
+  | .push c => brPush b mem c
+  | .pop => (brPop b mem).map fun (b', v) => (b', mem, v)
+
+def runB : ByteRing → List Byte → List BOp → Option (ByteRing × List Byte × List Int)
+  | b, mem, [] => some (b, mem, [])
+  | b, mem, op :: ops =>
+    match stepB b mem op with
+    | none => none
+    | some (b', mem', o) =>
+      match runB b' mem' ops with
+      | none => none
+      | some (b'', mem'', os) => some (b'', mem'', o :: os)
+
+/-! ## `ring_for_each(n, r) BODY` as the loop the macro expands to
+
+`for (unsigned int n = (r)->tail; n != (r)->head; n = (n + 1) % (r)->size) BODY`
+with a body that reads `buffer[n]` and updates a loop-carried state `s`.
+`none` = the body read outside the buffer, or the loop was still running after
+`fuel` evaluations of the loop test (non-termination within `fuel`). -/
+def ringForEachFold {α σ : Type} (r : RingHead) (buf : List α) (f : σ → U32 → α → σ) :
+    Nat → U32 → σ → Option σ
+  | 0, _, _ => none
+  | fuel + 1, n, s =>
+    if n != r.head then
+      match buf[n.toNat]? with
+      | none => none
+      | some x => ringForEachFold r buf f fuel ((n + 1) % r.size) (f s n x)
+    else some s
+
+/-! ## igris::ring<T>: copy / move / assignment (implicitly generated members)
+and `index_of` -/
+
+/-- `std::copy(first, last, dst)` over already constructed destination elements -/
+def stdCopy {α : Type} : List α → List α → List α
+  | s :: ss, _ :: ds => s :: stdCopy ss ds
+  | _, ds => ds
+
+/-- `unbounded_array(const unbounded_array &oth) : unbounded_array(oth.data(), oth.size())`:
+`sz` value-initialised elements, then `std::copy(data, data + sz, m_data)`. -/
+def arrCopy {α : Type} (dflt : α) (src : List α) : List α :=
+  stdCopy src (List.replicate src.length dflt)
+
+namespace TRing
+variable {α : Type}
+
+/-- implicit copy constructor `ring(const ring &)`: `r(oth.r), buffer(oth.buffer)` -/
+def copy (dflt : α) (t : TRing α) : TRing α := { r := t.r, buf := arrCopy dflt t.buf }
+
+/-- implicit copy assignment: `r = oth.r; buffer = oth.buffer;` (repaired
+`unbounded_array::operator=`: release the old array, allocate `oth.size()`,
+copy-construct each element) -/
+def assign (_ : TRing α) (oth : TRing α) : TRing α := { r := oth.r, buf := oth.buf.map fun x => x }
+
+/-- implicit move constructor `ring(ring &&)`: `r` is copied (a POD),
+`unbounded_array(unbounded_array &&)` steals the storage.  Returns
+(new object, moved-from object): the moved-from ring keeps `r.size` but owns
+no storage. -/
+def move (t : TRing α) : TRing α × TRing α := ({ r := t.r, buf := t.buf }, { r := t.r, buf := [] })
+
+end TRing
+
+/-- address of `buffer.data() + i` for elements of `elem` bytes at address `base` -/
+def slotAddr (base elem i : Nat) : Nat := base + i * elem
+
+/-- `index_of(element)`: `return element - buffer.data();` (pointer difference in
+elements, converted to `int`) -/
+def indexOf (base elem p : Nat) : Int := (((p - base) / elem : Nat) : Int)
+
+/-! ## Slot lifetime of igris::ring<T> over unbounded_array<T>, as the code is
+
+Every slot of the `unbounded_array` holds bytes (`t.buf`, they persist whatever
+happens to the object) and either a living `T` object or none (`live`).  The
+three counters record the events that are harmless for a trivially destructible
+`T` and defects for a `T` that owns something:
+`overLive` — placement-new over a living object (the old object's destructor
+never runs), `deadDtor` — `~T()` on a slot without a living object (double
+destruction), `deadRead` — copy from a slot without a living object. -/
+structure LRing (α : Type) where
+  t : TRing α
+  live : List Bool
+  overLive : Nat
+  deadDtor : Nat
+  deadRead : Nat
+
+namespace LRing
+variable {α : Type}
+
+def deadCount (l : List Bool) : Nat := (l.filter fun b => !b).length
+
+/-- `ring(int bufsize)`: `unbounded_array(bufsize + 1)` constructs every element -/
+def mk' (dflt : α) (bufsize : Nat) : LRing α :=
+  { t := TRing.mk' dflt bufsize, live := List.replicate (bufsize + 1) true,
+    overLive := 0, deadDtor := 0, deadRead := 0 }
+
+/-- `push` / `emplace`: `new (buffer.data() + r.head) T(obj); ring_move_head_one(&r);` -/
+def push (l : LRing α) (x : α) : Option (LRing α) :=
+  match l.t.push x with
+  | none => none
+  | some t' =>
+    let h := l.t.r.head.toNat
+    some { l with t := t', live := l.live.set h true,
+                  overLive := l.overLive + (if l.live.getD h false then 1 else 0) }
+
+/-- `pop`: `buffer[r.tail].~T(); ring_move_tail_one(&r);` -/
+def pop (l : LRing α) : Option (LRing α) :=
+  match l.t.pop with
+  | none => none
+  | some t' =>
+    let i := l.t.r.tail.toNat
+    some { l with t := t', live := l.live.set i false,
+                  deadDtor := l.deadDtor + (if l.live.getD i false then 0 else 1) }
+
+/-- `clear()`: `while (!empty()) pop();` -/
+def clear : Nat → LRing α → Option (LRing α)
+  | 0, l => some l
+  | fuel + 1, l => if ringEmpty l.t.r then some l else
+      match pop l with
+      | none => none
+      | some l' => clear fuel l'
+
+/-- `~ring()` = `~unbounded_array()` = `invalidate()`: `~T()` on EVERY slot -/
+def destroy (l : LRing α) : LRing α :=
+  { l with deadDtor := l.deadDtor + deadCount l.live, live := l.live.map fun _ => false }
+
+/-- `resize(sz)`: `buffer.resize(sz + 1)` = `invalidate(); create_buffer(sz + 1)`, `ring_init` -/
+def resize (dflt : α) (l : LRing α) (sz : Nat) : LRing α :=
+  { l with t := TRing.resize dflt l.t sz, live := List.replicate (sz + 1) true,
+           deadDtor := l.deadDtor + deadCount l.live }
+
+/-- copy construction from `l` (then `l` itself is destroyed): `std::copy` reads
+every slot of the source, living or not; every slot of the copy lives -/
+def copyAndDrop (dflt : α) (l : LRing α) : LRing α :=
+  { t := TRing.copy dflt l.t, live := List.replicate l.t.buf.length true,
+    overLive := l.overLive, deadDtor := l.deadDtor + deadCount l.live,
+    deadRead := l.deadRead + deadCount l.live }
+
+/-- move construction from `l` (the moved-from object owns nothing and destroys nothing) -/
+def moveAndDrop (l : LRing α) : LRing α := { l with t := (TRing.move l.t).1 }
+
+/-- `tail()` read by the user: is there an object? -/
+def tailLive (l : LRing α) : Bool := l.live.getD l.t.r.tail.toNat false
+
+end LRing
+
+/-! ## ring_counter.h in `int` arithmetic with the overflow made explicit
+
+`none` = a signed addition/subtraction left `[INT_MIN, INT_MAX]` (undefined
+behaviour in C; UBSan aborts).  The unchecked functions above are these with
+the test removed. -/
+
+def inInt (x : Int) : Prop := -2147483648 ≤ x ∧ x ≤ 2147483647
+instance (x : Int) : Decidable (inInt x) := by unfold inInt; exact inferInstance
+
+/-- an `int` result: `none` when it does not fit -/
+def ckInt (x : Int) : Option Int := if inInt x then some x else none
+
+/-- `while (x >= size) x -= size;` -/
+def rcDownC (size : Int) : Nat → Int → Option Int
+  | 0, x => some x
+  | fuel + 1, x => if x ≥ size then (ckInt (x - size)).bind (rcDownC size fuel) else some x
+
+/-- `while (x < 0) x += size;` -/
+def rcUpC (size : Int) : Nat → Int → Option Int
+  | 0, x => some x
+  | fuel + 1, x => if x < 0 then (ckInt (x + size)).bind (rcUpC size fuel) else some x
+
+/-- `rc->counter += arg; ring_counter_fixup(rc);` -/
+def rcIncrementC (rc : RingCounter) (arg : Int) : Option RingCounter :=
+  (ckInt (rc.counter + arg)).bind fun c =>
+    (rcDownC rc.size c.toNat c).map fun c' => { rc with counter := c' }
+
+/-- `rc->counter = val; ring_counter_fixup(rc);` -/
+def rcSetC (rc : RingCounter) (v : Int) : Option RingCounter :=
+  (rcDownC rc.size v.toNat v).map fun c' => { rc with counter := c' }
+
+/-- `int c = rc->counter - i; while (c < 0) c += rc->size; return c;` -/
+def rcPrevC (rc : RingCounter) (i : Int) : Option Int :=
+  (ckInt (rc.counter - i)).bind fun c => rcUpC rc.size (-c).toNat c
+
+/-- `ring_counter_fixup_pos(rc, pos)` -/
+def rcFixupPosC (rc : RingCounter) (pos : Int) : Option Int :=
+  (rcDownC rc.size pos.toNat pos).bind fun p => rcUpC rc.size (-p).toNat p
+
+/-- `ring_counter_last(rc, no)`: `ring_counter_fixup_pos(rc, rc->counter - no)` -/
+def rcLastC (rc : RingCounter) (no : Int) : Option Int :=
+  (ckInt (rc.counter - no)).bind (rcFixupPosC rc)
+
 end Igris.C03
